@@ -1432,16 +1432,37 @@ impl Gen {
                         return self.statement(0, gi);
                     }
                     "unit" => {
-                        // re-define the unit name that a failed input tried to define
+                        // (re-)define the unit name that a failed input — or, after a fork, the
+                        // sibling session — tried to define, with its own dimension, value and
+                        // decorators, so that stale metadata of the other definition would show
                         gi.contains.insert("unit");
                         gi.defines.push((name.clone(), "unit"));
+                        let (dim, dim_name, base): (DimV, &str, &str) = match self.rng.below(3) {
+                            0 => ([1, 0, 0, 0, 0, 0], "Length", "m"),
+                            1 => ([0, 1, 0, 0, 0, 0], "Time", "s"),
+                            _ => ([0, 0, 1, 0, 0, 0], "Mass", "kg"),
+                        };
+                        let mut deco = self.decorators();
+                        let mut short = None;
+                        let mut prefixes = false;
+                        if self.rng.chance(0.4) {
+                            let s = format!("{name}z");
+                            deco.push_str(&format!("@aliases({s}: short)\n"));
+                            gi.defines.push((s.clone(), "unit"));
+                            short = Some(s);
+                        }
+                        if self.rng.chance(0.3) {
+                            deco.push_str("@metric_prefixes\n");
+                            prefixes = true;
+                        }
+                        gi.probes.push(format!("(3 {name} -> {base})"));
                         self.sym.units.push(UnitS {
                             name: name.clone(),
-                            dim: [1, 0, 0, 0, 0, 0],
-                            short: None,
-                            prefixes: false,
+                            dim,
+                            short,
+                            prefixes,
                         });
-                        format!("unit {name}: Length = {} m", self.rng.range(2, 9))
+                        format!("{deco}unit {name}: {dim_name} = {} {base}", self.rng.range(2, 9))
                     }
                     "function" => {
                         gi.contains.insert("fn");
